@@ -69,7 +69,11 @@ where
             }
         };
 
-        headers.append(header, HeaderValue::from_bytes(value).map_err(http::Error::from)?);
+        let value = HeaderValue::from_bytes(value).map_err(http::Error::from)?;
+        // the map itself cannot hold more than 2^15 entries, however large max_headers is
+        headers
+            .try_append(header, value)
+            .map_err(|_| InvalidResponseKind::Header)?;
     }
 
     Ok((status, headers))
